@@ -27,6 +27,15 @@ STRENGTHENED = {
     "C15_7": "init() again while the old connect is still in flight", "C15_8": "closing the transport takes 50 ms", "C16_8": "eleventh request through every public API call",
     "C17_7": "free to/from addresses on unknown frames",
     "C09_9": "second init() while the slow first connect is still pending",
+    "C03_w7": "two messages of one class held together and flushed in one go; catalogue error texts of different lengths",
+    "C05_w7": "bytes.rstrip modelled; name fields with bytes behind the terminator were already free (first a self-test failure, exit 3)",
+    "C06_w7": "closing the connection of the damaged frame reports an OSError itself", "C07_w7": "half-open connection first written to by a command without retries",
+    "C08_w7": "the silent link's close reports ETIMEDOUT / EHOSTUNREACH", "C09_w7": "request order of the handshake after a second init() (slow connect, after shutdown)",
+    "C12_w7": "one frame changing every zone / both ACs with a failing subscriber on an entity or on the socket",
+    "C13_w7": "end of stream behind the last frame (FIN on the last segment or later); at_eof() in the reader stub (first a non-replaying counterexample, exit 3)",
+    "C14_w7": "the 300 s group deadline falls into an outage with nine or ten commands held", "C15_w7": "close() during the tear-down that follows a failed write (slow transport close)",
+    "C16_w7": "flush held up by back-pressure while held entries pass their expiry", "C17_w7": "extended frames whose inner text length disagrees with the frame",
+    "C18_w7": "another datagram (echo, short, foreign, invalid text) ahead of the console's answer", "C19_w7": "quick-timer durations with a seconds part",
     "C01_10": "a write stalled for up to 25 s without a fault", "C02_10": "writes failing together across the wrap of the packet counter",
     "C04_10": "AT5 mode change with a reported set-point outside the other mode's range", "C06_10": "damaged frame followed by the start of another in the same segment (also: SymBytes.__delitem__, connection cap against reset storms)",
     "C07_10": "a console that takes up to 20 s to accept", "C09_10": "AT5 zone numbering with a gap", "C14_10": "a frame left buffered on the abandoned connection while a subscriber is slow",
